@@ -2,6 +2,7 @@ package fcsim
 
 import (
 	"encoding/json"
+	"os"
 	"runtime/debug"
 	"sort"
 	"strings"
@@ -122,6 +123,9 @@ func RunCheck(t *testing.T, s Spec) {
 		return
 	}
 	prof := ProfileFor(s.Prop)
+	if p := os.Getenv("FCSIM_PROFILE"); p != "" { // development aid: another property's op mix
+		prof = ProfileFor(p)
+	}
 	r.Search(t, "random", 1000, r.N(s.Quick, s.Thorough), func(rt *rapid.T) (any, *report.Failure) {
 		c := Gen(rt, prof)
 		res := runCase(c)
